@@ -99,6 +99,7 @@ type HXCheck struct {
 	Quick       time.Duration // internal deadline; reaching it ends the run with exhaustive=false, never with an alarm
 	Thorough    time.Duration
 	Extra       func(tier string, cov map[string]interface{}) []string // additional sweeps; returns violation replay paths
+	Cov         func(total *hx.Stats, cov map[string]interface{})      // property-specific coverage keys
 }
 
 // RunHX runs an hx based check and returns the process exit code.
@@ -112,7 +113,7 @@ func RunHX(c HXCheck, tier string) int {
 	deadline := start.Add(dl)
 	pool := par.NewPool(Workers(), "worker", "hx")
 	defer pool.Close()
-	total := &hx.Stats{Obs: map[string]int{}, Known: map[string]int{}, Exhaustive: true}
+	total := &hx.Stats{Obs: map[string]int{}, Known: map[string]int{}, Exhaustive: true, Counters: map[string]int{}}
 	var viols []string
 	knownSeen := map[string]*Finding{}
 	perScope := map[string]interface{}{}
@@ -162,6 +163,9 @@ func RunHX(c HXCheck, tier string) int {
 		for k, v := range st.Known {
 			total.Known[k] += v
 		}
+		for k, v := range st.Counters {
+			total.Counters[k] += v
+		}
 		total.Samples = append(total.Samples, st.Samples...)
 		if !st.Exhaustive {
 			total.Exhaustive = false
@@ -189,6 +193,10 @@ func RunHX(c HXCheck, tier string) int {
 		"harness_errors":                total.Errors,
 		"worker_restarts":               pool.Restarts,
 		"failures_total":                total.Failures,
+		"counters":                      total.Counters,
+	}
+	if c.Cov != nil {
+		c.Cov(total, cov)
 	}
 	if c.Extra != nil {
 		viols = append(viols, c.Extra(tier, cov)...)
